@@ -180,6 +180,11 @@ func buildQuery(o *Obligation, extra []string) string {
 	for _, e := range extra {
 		sb.WriteString(e + "\n")
 	}
+	for _, f := range unfoldRec(all) {
+		sb.WriteString("(assert ")
+		f.write(&sb)
+		sb.WriteString(")\n")
+	}
 	for _, f := range o.Facts {
 		sb.WriteString("(assert ")
 		f.write(&sb)
@@ -267,7 +272,11 @@ func discharge(o *Obligation, timeout time.Duration, solvers []string, extra []s
 	if o.Result == "trivial" {
 		return
 	}
-	q := buildQuery(o, extra)
+	q := o.query
+	if q == "" {
+		q = buildQuery(o, extra)
+	}
+	o.query = ""
 	o.SMTSize = len(q)
 	if len(q) > 2_000_000 {
 		o.Result = "error"
@@ -336,6 +345,8 @@ func dischargeAll(obls []*Obligation, timeout time.Duration, workers int, solver
 	}
 	for _, o := range obls {
 		if o.Result == "" {
+			// term construction is not thread-safe: build the query text here, solve in the workers
+			o.query = buildQuery(o, nil)
 			ch <- o
 		}
 	}
@@ -391,4 +402,63 @@ func proveLemmas(th *Theory, timeout time.Duration) []solveResult {
 	}
 	wg.Wait()
 	return out
+}
+
+// unfoldRec: fuel-1 unfolding of the recursive spec function rep(D, w, lo, hi) at every occurrence
+// (empty, cons and snoc forms and the length), supplied by the generator instead of self-triggering axioms.
+func unfoldRec(ts []*Term) []*Term {
+	seen := map[*Term]bool{}
+	var reps []*Term
+	var walk func(t *Term)
+	walk = func(t *Term) {
+		if seen[t] {
+			return
+		}
+		seen[t] = true
+		if t.Op == "app" && t.Name == "rep" {
+			reps = append(reps, t)
+		}
+		for _, a := range t.Args {
+			walk(a)
+		}
+		for _, p := range t.Pat {
+			walk(p)
+		}
+	}
+	for _, t := range ts {
+		walk(t)
+	}
+	var out []*Term
+	for _, r := range reps {
+		bound := false
+		for _, a := range r.Args {
+			if hasBound(a) {
+				bound = true
+			}
+		}
+		if bound {
+			continue
+		}
+		D, w, lo, hi := r.Args[0], r.Args[1], r.Args[2], r.Args[3]
+		rr := App("rep", SBytes, D, w, lo, hi) // raw application (same term)
+		out = append(out, Implies(Ge(lo, hi), Eq(rr, TEps)))
+		first := Fixed(Select(D, lo), w)
+		last := Fixed(Select(D, Sub(hi, IntLit(1))), w)
+		out = append(out, Implies(Lt(lo, hi), Eq(rr, Cat(first, App("rep", SBytes, D, w, Add(lo, IntLit(1)), hi)))))
+		out = append(out, Implies(Lt(lo, hi), Eq(rr, App("cat", SBytes, App("rep", SBytes, D, w, lo, Sub(hi, IntLit(1))), last))))
+		out = append(out, Eq(App("len", SInt, rr), Mul(w, Max(Sub(hi, lo), IntLit(0)))))
+	}
+	return out
+}
+
+func hasBound(t *Term) bool {
+	if t.Op == "const" && strings.Contains(t.Name, "!q") {
+		return true
+	}
+	for _, a := range t.Args {
+		if hasBound(a) {
+			return true
+		}
+	}
+	return false
 }
